@@ -49,7 +49,7 @@ namespace C06
 open C17 (hEffG1 hEffG2)
 open PP.Spec (IsSswu sswuG)
 open Sswu (affX affY)
-open Expand (xofExpand)
+open Expand
 
 local notation "b₁" => g1Codec.b
 local notation "b₂" => g2Codec.b
@@ -84,29 +84,29 @@ def IsEncodeToCurveG2 (u : Fq2) (P : (W b₂).Point) : Prop :=
 
 theorem isMapToCurveG1_unique {u : Fq} {Q Q' : (W b₁).Point} (h : IsMapToCurveG1 u Q)
     (h' : IsMapToCurveG1 u Q') : Q = Q' := by
-  obtain ⟨x, y, hs, rfl⟩ := h
-  obtain ⟨x', y', hs', rfl⟩ := h'
-  obtain ⟨rfl, rfl⟩ := sswu_unique Zp.sgn0 Sswu.Fq.sgn0_neg Sswu.g1_no_root hs hs'
-  rfl
+  obtain ⟨x, y, hs, hQ⟩ := h
+  obtain ⟨x', y', hs', hQ'⟩ := h'
+  obtain ⟨hx, hy⟩ := sswu_unique Zp.sgn0 Sswu.Fq.sgn0_neg Sswu.g1_no_root hs hs'
+  rw [hQ, hQ', hx, hy]
 
 theorem isMapToCurveG2_unique {u : Fq2} {Q Q' : (W b₂).Point} (h : IsMapToCurveG2 u Q)
     (h' : IsMapToCurveG2 u Q') : Q = Q' := by
-  obtain ⟨x, y, hs, rfl⟩ := h
-  obtain ⟨x', y', hs', rfl⟩ := h'
-  obtain ⟨rfl, rfl⟩ := sswu_unique Fq2.sgn0 Sswu.Fq2.sgn0_neg (Sswu.g2_no_root hcard) hs hs'
-  rfl
+  obtain ⟨x, y, hs, hQ⟩ := h
+  obtain ⟨x', y', hs', hQ'⟩ := h'
+  obtain ⟨hx, hy⟩ := sswu_unique Fq2.sgn0 Sswu.Fq2.sgn0_neg (Sswu.g2_no_root hcard) hs hs'
+  rw [hQ, hQ', hx, hy]
 
 theorem isHashToCurveG1_unique {u0 u1 : Fq} {P P' : (W b₁).Point} (h : IsHashToCurveG1 u0 u1 P)
     (h' : IsHashToCurveG1 u0 u1 P') : P = P' := by
-  obtain ⟨Q0, Q1, h0, h1, rfl⟩ := h
-  obtain ⟨Q0', Q1', h0', h1', rfl⟩ := h'
-  rw [isMapToCurveG1_unique h0 h0', isMapToCurveG1_unique h1 h1']
+  obtain ⟨Q0, Q1, h0, h1, hP⟩ := h
+  obtain ⟨Q0', Q1', h0', h1', hP'⟩ := h'
+  rw [hP, hP', isMapToCurveG1_unique h0 h0', isMapToCurveG1_unique h1 h1']
 
 theorem isHashToCurveG2_unique {u0 u1 : Fq2} {P P' : (W b₂).Point} (h : IsHashToCurveG2 u0 u1 P)
     (h' : IsHashToCurveG2 u0 u1 P') : P = P' := by
-  obtain ⟨Q0, Q1, h0, h1, rfl⟩ := h
-  obtain ⟨Q0', Q1', h0', h1', rfl⟩ := h'
-  rw [isMapToCurveG2_unique h0 h0', isMapToCurveG2_unique h1 h1']
+  obtain ⟨Q0, Q1, h0, h1, hP⟩ := h
+  obtain ⟨Q0', Q1', h0', h1', hP'⟩ := h'
+  rw [hP, hP', isMapToCurveG2_unique h0 h0', isMapToCurveG2_unique h1 h1']
 
 /-! ## C14 in terms of the RFC relations -/
 
@@ -152,16 +152,17 @@ theorem rfc_hash_to_field_length {e : Bytes → Bytes → Nat → Option Bytes} 
     {msg dst : Bytes} {count : Nat} {us : List (List Nat)}
     (h : Rfc.hash_to_field e p m L msg dst count = some us) : us.length = count := by
   unfold Rfc.hash_to_field at h
-  revert h
-  cases e msg dst (count * m * L) with
-  | none => intro h; cases h
-  | some b => intro h; cases h; simp
+  simp only at h
+  split at h
+  · cases h
+  · injection h with h; subst h; simp
 
 theorem rfc_hash_to_field_none_iff (e : Bytes → Bytes → Nat → Option Bytes) (p m L : Nat)
     (msg dst : Bytes) (count : Nat) :
     Rfc.hash_to_field e p m L msg dst count = none ↔ e msg dst (count * m * L) = none := by
   unfold Rfc.hash_to_field
-  cases e msg dst (count * m * L) <;> simp
+  simp only
+  split <;> simp [*]
 
 /-- a list-valued `Option` whose image is `some us` -/
 theorem map_eq_some_two {α β : Type} {f : α → β} {o : Option (List α)} {us : List β}
@@ -188,6 +189,53 @@ theorem map_eq_some_one {α β : Type} {f : α → β} {o : Option (List α)} {u
     obtain ⟨a, rfl⟩ := hlen
     exact ⟨a, rfl, rfl⟩
 
+theorem splitBlocks_length {T : Type} (L : Nat) (f : Bytes → Option T) (bytes : Bytes) :
+    ∀ (n idx : Nat) (l : List T), splitBlocks L f bytes n idx = some l → l.length = n := by
+  intro n
+  induction n with
+  | zero => intro idx l h; simp only [splitBlocks, Option.some.injEq] at h; subst h; rfl
+  | succ n ih =>
+    intro idx l h
+    rw [splitBlocks] at h
+    simp only [Option.bind_eq_bind, Option.pure_def] at h
+    split at h
+    · cases h
+    · cases hf : f ((bytes.drop (idx * L)).take L) with
+      | none => rw [hf] at h; cases h
+      | some e =>
+        rw [hf] at h
+        cases hr : splitBlocks L f bytes n (idx + 1) with
+        | none => rw [hr] at h; cases h
+        | some rest =>
+          rw [hr] at h
+          simp only [Option.bind_some, Option.some.injEq] at h
+          subst h
+          simp [ih _ _ hr]
+
+/-- `hash_to_field` returns `count` elements (or aborts) -/
+theorem hashToField_length {T : Type} {expand : Bytes → Bytes → Nat → Option Bytes} {L : Nat}
+    {f : Bytes → Option T} {msg dst : Bytes} {count : Nat} {l : List T}
+    (h : hashToField expand L f msg dst count = some l) : l.length = count := by
+  unfold hashToField at h
+  cases he : expand msg dst (count * L) with
+  | none => rw [he] at h; cases h
+  | some bytes =>
+    rw [he] at h
+    exact splitBlocks_length L f bytes count 0 l h
+
+/-- (stated with an abstract `f` so that the kernel never unfolds `map2ToCurveG2`) -/
+theorem bind_match2 {α β : Type} (f : α → α → Option β) (a b : α) :
+    (do let u ← some [a, b]
+        match u with
+        | [x, y] => f x y
+        | _ => none) = f a b := rfl
+
+theorem bind_match1 {α β : Type} (f : α → Option β) (a : α) :
+    (do let u ← some [a]
+        match u with
+        | [x] => f x
+        | _ => none) = f a := rfl
+
 section model_unfold
 variable (expand : Bytes → Bytes → Nat → Option Bytes) (msg dst : Bytes)
 
@@ -204,12 +252,12 @@ theorem encodeToCurveG1_of_field {u : Fq}
 theorem hashToCurveG2_of_field {u0 u1 : Fq2}
     (h : hashToField expand 128 Fq2.fromRo msg dst 2 = some [u0, u1]) :
     hashToCurveG2 expand msg dst = map2ToCurveG2 u0 u1 := by
-  unfold hashToCurveG2; rw [h]; rfl
+  unfold hashToCurveG2; rw [h]; exact bind_match2 map2ToCurveG2 u0 u1
 
 theorem encodeToCurveG2_of_field {u : Fq2}
     (h : hashToField expand 128 Fq2.fromRo msg dst 1 = some [u]) :
     encodeToCurveG2 expand msg dst = mapToCurveG2 u := by
-  unfold encodeToCurveG2; rw [h]; rfl
+  unfold encodeToCurveG2; rw [h]; exact bind_match1 mapToCurveG2 u
 
 theorem hashToCurveG1_of_none (h : hashToField expand 64 Fq.fromOkm msg dst 2 = none) :
     hashToCurveG1 expand msg dst = none := by
@@ -426,68 +474,46 @@ theorem encodeToCurveG2_none_iff
 theorem hashToCurveG1_inSub
     (hexp : ∀ g : (W b₁).Point, (0xd201000000010001 * Gen.r) • g = 0)
     {P : Jac Fq} (h : hashToCurveG1 expand msg dst = some P) : Jac.InSub b₁ P := by
-  unfold hashToCurveG1 at h
   cases hf : hashToField expand 64 Fq.fromOkm msg dst 2 with
-  | none => rw [hf] at h; cases h
+  | none => rw [hashToCurveG1_of_none expand msg dst hf] at h; cases h
   | some l =>
-    rw [hf] at h
-    match l, h with
-    | [u0, u1], h =>
-      have : P = map2ToCurveG1 u0 u1 := (Option.some.inj h).symm
-      rw [this]; exact C14.g1_map2_inSub hexp u0 u1
-    | [], h => cases h
-    | [_], h => cases h
-    | _ :: _ :: _ :: _, h => cases h
+    obtain ⟨u0, u1, rfl⟩ := List.length_eq_two.mp (hashToField_length hf)
+    rw [hashToCurveG1_of_field expand msg dst hf] at h
+    rw [← Option.some.inj h]; exact C14.g1_map2_inSub hexp u0 u1
 
 theorem encodeToCurveG1_inSub
     (hexp : ∀ g : (W b₁).Point, (0xd201000000010001 * Gen.r) • g = 0)
     {P : Jac Fq} (h : encodeToCurveG1 expand msg dst = some P) : Jac.InSub b₁ P := by
-  unfold encodeToCurveG1 at h
   cases hf : hashToField expand 64 Fq.fromOkm msg dst 1 with
-  | none => rw [hf] at h; cases h
+  | none => rw [encodeToCurveG1_of_none expand msg dst hf] at h; cases h
   | some l =>
-    rw [hf] at h
-    match l, h with
-    | [u], h =>
-      have : P = mapToCurveG1 u := (Option.some.inj h).symm
-      rw [this]; exact C14.g1_map_inSub hexp u
-    | [], h => cases h
-    | _ :: _ :: _, h => cases h
+    obtain ⟨u, rfl⟩ := List.length_eq_one_iff.mp (hashToField_length hf)
+    rw [encodeToCurveG1_of_field expand msg dst hf] at h
+    rw [← Option.some.inj h]; exact C14.g1_map_inSub hexp u
 
 theorem hashToCurveG2_inSub
     (hord : ∀ g : (W b₂).Point, (Gen.G2_COFACTOR * Gen.r) • g = 0)
     {P : Jac Fq2} (h : hashToCurveG2 expand msg dst = some P) : Jac.InSub b₂ P := by
-  unfold hashToCurveG2 at h
   cases hf : hashToField expand 128 Fq2.fromRo msg dst 2 with
-  | none => rw [hf] at h; cases h
+  | none => rw [hashToCurveG2_of_none expand msg dst hf] at h; cases h
   | some l =>
-    rw [hf] at h
-    match l, h with
-    | [u0, u1], h =>
-      obtain ⟨R, hR, hs⟩ := C14.g2_map2_inSub hord u0 u1
-      have h' : map2ToCurveG2 u0 u1 = some P := h
-      rw [hR] at h'
-      rw [← Option.some.inj h']; exact hs
-    | [], h => cases h
-    | [_], h => cases h
-    | _ :: _ :: _ :: _, h => cases h
+    obtain ⟨u0, u1, rfl⟩ := List.length_eq_two.mp (hashToField_length hf)
+    rw [hashToCurveG2_of_field expand msg dst hf] at h
+    obtain ⟨R, hR, hs⟩ := C14.g2_map2_inSub hord u0 u1
+    rw [hR] at h
+    rw [← Option.some.inj h]; exact hs
 
 theorem encodeToCurveG2_inSub
     (hord : ∀ g : (W b₂).Point, (Gen.G2_COFACTOR * Gen.r) • g = 0)
     {P : Jac Fq2} (h : encodeToCurveG2 expand msg dst = some P) : Jac.InSub b₂ P := by
-  unfold encodeToCurveG2 at h
   cases hf : hashToField expand 128 Fq2.fromRo msg dst 1 with
-  | none => rw [hf] at h; cases h
+  | none => rw [encodeToCurveG2_of_none expand msg dst hf] at h; cases h
   | some l =>
-    rw [hf] at h
-    match l, h with
-    | [u], h =>
-      obtain ⟨R, hR, hs⟩ := C14.g2_map_inSub hord u
-      have h' : mapToCurveG2 u = some P := h
-      rw [hR] at h'
-      rw [← Option.some.inj h']; exact hs
-    | [], h => cases h
-    | _ :: _ :: _, h => cases h
+    obtain ⟨u, rfl⟩ := List.length_eq_one_iff.mp (hashToField_length hf)
+    rw [encodeToCurveG2_of_field expand msg dst hf] at h
+    obtain ⟨R, hR, hs⟩ := C14.g2_map_inSub hord u
+    rw [hR] at h
+    rw [← Option.some.inj h]; exact hs
 
 end generic
 
@@ -496,6 +522,8 @@ end generic
 `H` is any Merkle–Damgård hash with `outSize`-byte digests (`hH`); `BLS12381G1_XMD:SHA-256_SSWU_RO_`
 is `H = C13.sha256H`.  The tag is at most 255 bytes (`hdst`; beyond, the Rust truncates the length
 byte where the RFC aborts, see C13). -/
+
+set_option linter.unusedSectionVars false
 
 section xmd
 variable (H : XmdHash) (msg dst : Bytes)
